@@ -120,7 +120,7 @@ def server_case(rng, stats, length, pid):
     st = {"now": 0}
     sim = ServerSim()
     ps = PeerStream(rng, stats)
-    cs = rng.choice([1, 2, 127, 128, 4096, 4096, 65535, (1 << 31) - 1])
+    cs = rng.choice([1, 2, 127, 128, 4096, 4096, 65535, (1 << 31) - 1, (1 << 24) + 100])
     win = rng.choice([0, 1, 100, 2500000, M32 - 1])
     ops = [f"srv.new 0 {cs} {win} {rng.choice([0, 2500000, M32 - 1])} {rng.below(2)} {hexb(rng.choice([b'FMS/3,0,1,1233', b'', 'é'.encode()]))}"]
 
@@ -300,7 +300,7 @@ def server_case(rng, stats, length, pid):
             if rng.chance(1, 10): body = body[:rng.below(4)]
             feed(ps.msg(typ, 0, body))
         elif a == 15:   # set chunk size from the peer
-            n = rng.choice([1, 2, 100, 128, 4096, 65536, 0x7FFFFFFF]) if not rng.chance(1, 10) else rng.choice([0, 0x80000000])
+            n = rng.choice([1, 2, 100, 128, 4096, 65536, 0x7FFFFFFF, 0x1000000, 0x1000001, 0x1000003]) if not rng.chance(1, 10) else rng.choice([0, 0x80000000])
             feed(ps.msg(1, 0, n.to_bytes(4, "big")))
         elif a == 16:   # unknown message type
             feed(ps.msg(rng.choice([0, 7, 10, 16, 19, 22, 255]), rng.choice([0, 1]), rng.bytes(rng.below(10))))
@@ -366,7 +366,7 @@ def client_case(rng, stats, length, pid):
     st = {"now": 0}
     sim = ClientSim()
     ps = PeerStream(rng, stats)
-    cs = rng.choice([1, 2, 127, 128, 4096, 4096, 65535, (1 << 31) - 1])
+    cs = rng.choice([1, 2, 127, 128, 4096, 4096, 65535, (1 << 31) - 1, (1 << 24) + 100])
     ops = [f"cli.new {cs} {rng.choice([0, 1, 100, 2500000, M32 - 1])} {rng.choice([0, 2000, M32 - 1])} {hexb(rng.choice([b'WIN 23,0,0,207', b'']))} {rng.choice(['_', hexb(b'rtmp://h/app')])}"]
 
     def feed(data):
@@ -514,7 +514,7 @@ def client_case(rng, stats, length, pid):
             feed(ps.msg(4, 0, code.to_bytes(2, "big") + rng.below(M32).to_bytes(4, "big")))
         elif a == 19:           # ack / window / bandwidth / abort / chunk size
             typ = rng.choice([3, 5, 5, 6, 2, 1])
-            n = rng.choice([rng.below(M32), 0, 1, 10, 100, 4096, M32 - 1]) if typ != 1 else rng.choice([1, 128, 4096, 65536, 0, 0x80000000])
+            n = rng.choice([rng.below(M32), 0, 1, 10, 100, 4096, M32 - 1]) if typ != 1 else rng.choice([1, 128, 4096, 65536, 0, 0x80000000, 0x1000000, 0x1000001, 0x1000003, 0x7FFFFFFF])
             feed(ps.msg(typ, 0, n.to_bytes(4, "big") + (bytes([rng.below(4)]) if typ == 6 else b"")))
         elif a == 20:           # unknown command / unknown type
             if rng.chance(1, 2):
